@@ -5,6 +5,7 @@
 package ops
 
 import (
+	"fmt"
 	"math/big"
 
 	"github.com/consensys/gnark/constraint/solver"
@@ -59,6 +60,29 @@ func toBinOp(n int, name string) Op {
 				return unsat
 			}
 			out := make([]*big.Int, n)
+			for i := range out {
+				out[i] = bi(int64(in[0].Bit(i)))
+			}
+			return Res{Sat: true, Out: out}
+		}}
+}
+
+// toBinOverOp: ToBinary asked for MORE digits than the field has (req > nbits): the gadget returns
+// the canonical nbits-digit decomposition (the request is clamped), every value is in range.
+func toBinOverOp(nbits, req int, name string) Op {
+	return Op{Name: name, NIn: 1, NOut: nbits,
+		Build: func(api frontend.API, in []frontend.Variable) []frontend.Variable {
+			b := api.ToBinary(in[0], req)
+			if len(b) < nbits {
+				panic(fmt.Sprintf("harness: ToBinary(x, %d) returned %d bits", req, len(b)))
+			}
+			for _, hi := range b[nbits:] {
+				api.AssertIsEqual(hi, 0) // digits beyond the field size, if the gadget returns them, are 0
+			}
+			return b[:nbits]
+		},
+		Ref: func(p *big.Int, in []*big.Int) Res {
+			out := make([]*big.Int, nbits)
 			for i := range out {
 				out[i] = bi(int64(in[0].Bit(i)))
 			}
@@ -153,6 +177,8 @@ func All(nbits int) []Op {
 		toBinOp(1, "ToBinary1"),
 		toBinOp(3, "ToBinary3"),
 		toBinOp(nbits, "ToBinaryFull"),
+		toBinOverOp(nbits, nbits+1, "ToBinaryFull+1"),
+		toBinOverOp(nbits, 2*nbits, "ToBinaryFullx2"),
 		{Name: "FromBinary3", NIn: 3, NOut: 1,
 			Build: func(api frontend.API, in []frontend.Variable) []frontend.Variable {
 				return []frontend.Variable{api.FromBinary(in[0], in[1], in[2])}
